@@ -147,11 +147,11 @@ func (x *c15) invariants(when string) {
 		var d int
 		switch ev.Kind {
 		case "alloc+", "alloc-":
-			k = key{"alloc", ev.Src + ">" + ev.Dst}
+			k = key{"alloc", ev.Net + "/" + ev.Src + ">" + ev.Dst}
 		case "perm+", "perm-":
-			k = key{"perm", ev.Src + ">" + ev.Dst + "|" + ev.Peer}
+			k = key{"perm", ev.Net + "/" + ev.Src + ">" + ev.Dst + "|" + ev.Peer}
 		case "chan+", "chan-":
-			k = key{"chan", fmt.Sprintf("%s>%s|%d|%s", ev.Src, ev.Dst, ev.Num, ev.Peer)}
+			k = key{"chan", fmt.Sprintf("%s/%s>%s|%d|%s", ev.Net, ev.Src, ev.Dst, ev.Num, ev.Peer)}
 		default:
 			continue
 		}
